@@ -823,6 +823,9 @@ func (h *connection) handle(finishedWG *sync.WaitGroup) (err error) {
 		// Stream the snapshot instead.
 		h.logCxt.Info("Sending streamed snapshot.")
 		breadcrumb = h.cache.CurrentBreadcrumb()
+		if simYield != nil {
+			simYield("stream-snapshot-start")
+		}
 		err = h.streamSnapshotToClient(h.logCxt, breadcrumb)
 		if err != nil {
 			log.WithError(err).Info("Failed to send snapshot to client, tearing down connection.")
@@ -1192,6 +1195,9 @@ func (h *connection) sendDeltaUpdatesToClient(logCxt *log.Entry, breadcrumb *sna
 				return
 			}
 			timeSpentInNext := time.Since(nextStartTime)
+			if simYield != nil {
+				simYield("delta-next-crumb")
+			}
 
 			// Take a peek at the very latest breadcrumb to see how far behind we are...
 			latestCrumb := h.cache.CurrentBreadcrumb()
